@@ -90,6 +90,16 @@ func buildC02(tier string, seed int64) *Family {
 			add("//*[" + pick(r, inner) + "[" + a + "] and not(" + pick(r, inner) + "[" + b + "])]")
 		}
 	}
+	// elements with several attributes: wildcard attribute predicates leave a half-consumed
+	// attribute cursor behind for the next candidate
+	acfg := docCfg{N: 3, A: 2, Names: "a,b", Pool: cfg.Pool}
+	if tier == "thorough" {
+		acfg = docCfg{N: 4, A: 2, Names: "a,b", Pool: cfg.Pool}
+	}
+	for _, t := range []string{"//*[@*]", "*[@*]", "//*[@* = '1']", "//*[@* != '1']", "//*[not(@*)]", "//*[@*][@a]", "//*[count(@*) = 1]", "//*[@a or @b]", "//*[@* = '1' and @b]",
+		"preceding-sibling::*[@* = '1']", "//*[@*]/@*", "//*[@* > 0]", "//*[contains(@*, '1')]", "//@*[. = '1']", "//*[@a = @b]"} {
+		insts = append(insts, nodesetInst(t, acfg))
+	}
 	return &Family{
 		Instances: dedupInst(insts),
 		Canaries: []*vm.Instance{
